@@ -8,10 +8,11 @@ from . import common
 ID = 'C04'
 LEVEL = 'fault_enumeration'
 TIERS = {
-    'quick': {'cases': 512 + 220, 'wall': 110, 'chunk': 2},
-    'thorough': {'cases': 512 + 6000, 'wall': 1500, 'chunk': 4},
+    'quick': {'cases': 5 + 512 + 220, 'wall': 110, 'chunk': 2},
+    'thorough': {'cases': 5 + 512 + 6000, 'wall': 1500, 'chunk': 4},
 }
-RULE = ('cases 0..511: the BAD-LENGTH MATRIX (seed independent): a dynamic array of each element type x word size '
+RULE = ('cases 0..4: stack array literals larger than a 16-bit word can address (65600 bytes, 32800 ints, 70000 bools, '
+        '3 x 30000 bytes, 3 x 12000 ints in one frame) must be rejected or end in stack_overflow. Cases 5..516: the BAD-LENGTH MATRIX (seed independent): a dynamic array of each element type x word size '
         '{2,3,4,8} x 16 negative / minimal / maximal / wrapping run-time lengths x {local, callee}, declared next '
         'to a live array literal, stored into and read back, at 14 stack sizes 6..1200 words: every run must end in '
         'stack_overflow before any store, with the monitors silent. Further cases: an array-heavy program (array literals whose elements contain allocating calls, dynamic '
@@ -432,7 +433,57 @@ def badlen_case(k):
     return res
 
 
+# ---- objects larger than the word can address (seed independent, few and slow): a stack array literal with more
+# elements than a length word / the frame guards can represent must be rejected or end in stack_overflow
+HUGE = [('byte', 65600, 1), ('int', 32800, 1), ('bool', 70000, 1), ('byte', 30000, 3), ('int', 12000, 3)]
+
+
+def huge_case(k):
+    el, n, copies = HUGE[k]
+    zero = {'byte': I(0), 'int': I(0), 'bool': B(False)}[el]
+    first = {'byte': V('kb'), 'int': V('q'), 'bool': bin_('==', V('q'), I(7))}[el]
+    body = [decl('int', 'canary', I(12345)), decl('byte', 'kb', is_(V('q'), 'byte'))]
+    for c in range(copies):
+        body.append(decl(arr(el), f'a{c}', ('arr', (first,) + (zero,) * (n - 1)), True))
+    for c in range(copies):
+        body += [write(ln(f'a{c}')), write(C(' ')), write(idx(f'a{c}', I(0)) if el != 'byte' else is_(idx(f'a{c}', I(0)), 'int')), write(C(' '))]
+    body.append(write(V('canary')))
+    p = prog([], [func('empty', '@is_you', [('int', 'q')], *body)])
+    res = common.new_result()
+    res['counters']['kind_huge_literal'] = 1
+    res['key'] = digest('huge', el, n, copies)
+    from .. import render
+    from ..runner import build, run_svm
+    from ..monitors import Monitor
+    src = render.program(p)
+    viol = None
+    b = build(src, W=2, stack=16000, argv=['7'])
+    if b.error_kind == 'rejected':
+        res['outcomes']['huge_literal_rejected_at_compile_time'] = 1
+    elif b.prog is None:
+        viol = (b.error_kind + '-error' if b.error_kind != 'internal' else 'internal-error', str(b.error))
+    else:
+        mon = Monitor()
+        r = run_svm(b.prog, monitor=mon, max_steps=400_000)
+        res['counters']['svm_runs'] += 1
+        res['outcomes'][f'huge_literal:{r.outcome}/{r.error_kind}'] = 1
+        if r.verdicts:
+            viol = (r.verdicts[0][0], f'{copies} x {el}[{n}] literal on a 16-bit machine: {r.verdicts[0][2]}')
+        elif not (r.outcome == 'ERROR' and r.error_kind == 'stack_overflow'):
+            viol = ('history', f'{copies} x {el}[{n}] literal on a 16-bit machine with a 16000-word stack: expected a compile-time '
+                               f'rejection or stack_overflow, got {r.outcome}/{r.error_kind} [{hist_text(r.history, 120)}]')
+    res['nontrivial'] = True
+    res['digest'] = digest(res['key'], viol)
+    if viol:
+        res['violations'].append({'cls': viol[0], 'detail': viol[1], 'fingerprint': None,
+                                  'payload': {'kind': 'huge', 'huge_idx': k}, 'sample': {'source': src[:300] + ' ...'}})
+    return res
+
+
 def case(seed, idx, tier):
+    if idx < len(HUGE):
+        return huge_case(idx)
+    idx -= len(HUGE)
     if idx < N_BADLEN:
         return badlen_case(idx)
     idx -= N_BADLEN
@@ -546,6 +597,8 @@ def case(seed, idx, tier):
 
 
 def replay(pl):
+    if pl.get('kind') == 'huge':
+        return [{'cls': v['cls'], 'detail': v['detail'], 'fingerprint': None} for v in huge_case(pl['huge_idx'])['violations']]
     if pl.get('kind') == 'badlen':
         return [{'cls': v['cls'], 'detail': v['detail'], 'fingerprint': None} for v in badlen_case(pl['badlen_idx'])['violations']]
     p = lang.from_json(pl['prog'])
